@@ -241,3 +241,19 @@ def kwarg(call, name, pos=None):
     if pos is not None and len(call.args) > pos and not any(isinstance(a, ast.Starred) for a in call.args[:pos + 1]):
         return call.args[pos]
     return None
+
+
+def resolve_local(fn, e, depth=3):
+    """If e is a local Name with exactly one plain assignment in fn, the assigned expression (followed transitively);
+    otherwise e itself.  Lets rules see through `x = <expr>; use(x)` refactors."""
+    while depth > 0 and isinstance(e, ast.Name):
+        defs = [a for a in walk_no_nested(fn) if isinstance(a, (ast.Assign, ast.AnnAssign)) and a.value is not None
+                and any(isinstance(t, ast.Name) and t.id == e.id for t in (a.targets if isinstance(a, ast.Assign) else [a.target]))]
+        others = [a for a in walk_no_nested(fn) if isinstance(a, (ast.AugAssign, ast.For, ast.With, ast.NamedExpr))
+                  and any(isinstance(t, ast.Name) and t.id == e.id for t in ast.walk(
+                      a.target if isinstance(a, (ast.AugAssign, ast.For, ast.NamedExpr)) else ast.Tuple(elts=[i.optional_vars for i in a.items if i.optional_vars is not None], ctx=ast.Store())))]
+        if len(defs) != 1 or others:
+            break
+        e = defs[0].value
+        depth -= 1
+    return e
